@@ -327,6 +327,35 @@ impl Check for C03 {
                 run_one(run, 6000 + i, l, &scene);
             }
         });
+        // J: invertible transforms with a tiny determinant (only a non-invertible transform draws
+        // nothing): mask() ignores the transform, fills are given in user units 10^4 times larger
+        run.bound("tiny determinants", "scale(1e-4) and scale(1e-3, 1e-5): mask, fill, fractional fill_rect and stroke in the matching user units x 5 modes x 3 sources x first 4 contexts on 12x4".to_string());
+        run.par(hmodes.len() * 2, |i, l| {
+            let mode = hmodes[i / 2];
+            let (kx, ky) = if i % 2 == 0 { (1e4f32, 1e4f32) } else { (1e3, 1e5) };
+            let xf: Xf = [1.0 / kx, 0., 0., 1.0 / ky, 0., 0.];
+            let tctx: Vec<_> = contexts(w, h, true).into_iter().take(4).collect();
+            for src in [SrcSpec::Solid(0x80402010), SrcSpec::Solid(0xff204080), SrcSpec::Linear { stops: vec![Stop { pos: 0.0, color: 0x80ff8040 }, Stop { pos: 1.0, color: 0x80ff8040 }], spread: Spr::Pad, p: [0., 0., 5., 3.] }] {
+                let o = Opts { mode, alpha: 1.0, aa: true };
+                let probes = vec![
+                    Op::Mask(1, 0, 5, 2, vec![255, 128, 1, 0, 64, 255, 200, 7, 99, 254], src.clone()),
+                    Op::Fill(PathSpec::poly(&[(0.5 * kx, 0.25 * ky), (11.5 * kx, 0.5 * ky), (6.0 * kx, 3.75 * ky)]), src.clone(), o),
+                    Op::FillRect(1.5 * kx, 0.25 * ky, 8.25 * kx, 3.5 * ky, src.clone(), o),
+                    Op::Stroke(PathSpec::new(vec![POp::M(1.0 * kx, 1.0 * ky), POp::L(11.0 * kx, 2.5 * ky)]), StyleSpec { width: 1.5 * kx.min(ky), cap: 1, join: 1, miter: 4., dash: vec![], offset: 0. }, src.clone(), o),
+                ];
+                for probe in probes {
+                    for (_cn, pre, suf) in tctx.iter() {
+                        let mut ops = pre.clone();
+                        ops.push(Op::SetTransform(xf));
+                        ops.push(probe.clone());
+                        ops.push(Op::SetTransform(IDENT));
+                        ops.extend(suf.iter().cloned());
+                        let scene = Scene { w, h, dst: dst_cols(w, h, &VALS12, 2), ops };
+                        run_one(run, 8000 + i, l, &scene);
+                    }
+                }
+            }
+        });
         // I: a mask of more than 65536 bytes on a surface of more than 65536 pixels
         run.bound("large mask", "300x300 mask (coverage with periods 251 / 241 along rows / columns) at (0,0) and (-7,13) x 4 modes x 2 sources x 2 contexts on 300x300".to_string());
         run.par(4, |i, l| {
